@@ -638,8 +638,47 @@ def check_newonly(ctx, rule='R-NEWONLY'):
                                   'dimension replaces that dimension (an unlimited `time` loses its flag, another length raises)' % key))
 
 
+def check_slice_dim_len(ctx, rule='R-NEWLEN'):
+    """slice_dim: the sliced variables are stored as they come out of the subscript, so the length of the re-created dimension has to
+    be measured on them (or computed through slice.indices(len)); range(start, stop, step) does not clamp to the dimension"""
+    fn = ctx.src.mod('core/_functions.py').func('slice_dim')
+    where = 'src/PseudoNetCDF/core/_functions.py slice_dim'
+    env = dict((st.targets[0].id, st.value) for st in iter_stmts(fn.body) if isinstance(st, ast.Assign) and len(st.targets) == 1 and isinstance(st.targets[0], ast.Name))
+    for c in walk_expr(fn):
+        if isinstance(c, ast.Call) and isinstance(c.func, ast.Attribute) and c.func.attr == 'createDimension' and len(c.args) >= 2 and getattr(c, '_fn', fn) is fn:
+            ln = c.args[1]
+            txt = norm(env.get(ln.id, ln)) if isinstance(ln, ast.Name) else norm(ln)
+            if 'range(' in txt and '.indices(' not in txt:
+                ctx.violation(Finding(rule, 'core/_functions.py', 'slice_dim', api.stmt_of(c), 'the new length of the sliced dimension is %s: range() does not clamp a stop beyond the end (or resolve a '
+                                      'negative bound) the way the subscript does, so the variables come out with another length than their dimension' % txt[:60]))
+            elif '.shape[' in txt or 'len(' in txt or '.size' in txt:
+                ctx.ok(rule, 'slice_dim:%s' % txt[:30], where, 'length measured on the sliced values')
+            else:
+                ctx.undec(rule, 'slice_dim:%s' % txt[:30], where, 'length expression not recognised')
+
+
+def check_nd_fallback(ctx, rule='R-NDSTORE'):
+    """sliceDimensions: N-d index arrays give values whose shape differs from the prepared variable only by how the point axes are
+    split; the final store has the reshape fallback that makes the documented N-d selection complete"""
+    ctx.rule(rule, 'sliceDimensions: the final store of the selected values has the reshape fallback for N-d index arrays')
+    fn = ctx.src.mod('core/_files.py').func('PseudoNetCDFFile.sliceDimensions')
+    where = 'src/PseudoNetCDF/core/_files.py PseudoNetCDFFile.sliceDimensions'
+    stores = [st for st in iter_stmts(fn.body) if isinstance(st, ast.Assign) and isinstance(st.targets[0], ast.Subscript) and norm(st.targets[0]) == 'newvaro[...]']
+    if not stores:
+        ctx.undec(rule, 'store', where, 'store newvaro[...] = ... not found')
+        return
+    resh = [st for st in stores if 'reshape(' in norm(st.value)]
+    if resh:
+        ctx.ok(rule, 'store', where, norm(resh[0])[:60])
+    else:
+        ctx.violation(Finding(rule, 'core/_files.py', 'PseudoNetCDFFile.sliceDimensions', stores[-1], 'the selected values are stored without the reshape fallback: a selection with N-d index arrays '
+                              '(newdims with one name per axis) raises instead of completing'))
+
+
 def run(ctx):
     check_ncattr_tuple(ctx)
+    check_slice_dim_len(ctx)
+    check_nd_fallback(ctx)
     check_newonly(ctx)
     ctx.rule('R-UNLIM', 'createDimension of a surviving key is paired with a setunlimited derived from the source dimension')
     ctx.rule('R-NCATTR', 'attribute-name list written only by life-cycle methods, in step with the attribute store')
